@@ -18,7 +18,7 @@ LEAN_TARGETS = ['VivProps.C07']
 DRIVER = 'Topo'
 REQUIRED_THEOREMS = ['keys_exactly_declared', 'glob_one_entry_per_current_child', 'output_port_empty',
                      'all_port_subtree', 'declared_variable_current_value', 'expire_complete',
-                     'view_unchanged_by_value_update', 'fresh', 'fresh_states']
+                     'view_unchanged_by_value_update', 'fresh', 'fresh_states', 'glob_empty_subschema_entries_empty']
 ANCHORS = [
     ('vivarium/core/store.py', ['Store.schema_topology', 'Store.build_topology_views', 'Store.get_path',
                                 'Store.get_value', 'Store.outer_path', 'view_values',
